@@ -24,8 +24,48 @@ def comparator(src, fn, probs):
     return "unknown"
 
 
+# Every place where the order of a hash map / hash set can be observed, with the reason why it cannot
+# reach the output. A site that is not listed (new, or rewritten) is reported: it has not been shown to be
+# order-insensitive. Identity = file + the statement text with blanks squeezed.
+AUDITED_HASH_SITES = {
+    ("src/compile.rs", "let mut v: Vec<(&String, &Variable)> = self.variables.iter().collect();"): "collected, then sorted by the total comparator (cmpVariables)",
+    ("src/compile.rs", "let mut v: Vec<(&String, &Function)> = self.functions.iter().collect();"): "collected, then sorted by the total comparator (cmpFunctions)",
+    ("src/compile.rs", "let mut literals: Vec<(&String, &String)> = res.1.iter().collect();"): "collected, then sorted by key (literalLoopsSorted)",
+    ("src/compile.rs", "for k in &res.1 {"): "copies the literals of a nested expression into the enclosing map: the keys of one map are distinct, so the union does not depend on the order (4 sites)",
+    ("src/compile.rs", "for i in &self.variables {"): "copies the keys into another map (in_scope_variables): a set union",
+    ("src/generate/generate_asm.rs", "for i in &self.compiler_state.functions {"): "adds the reachability closure of every interrupt function to a set: a union (closure = reachability is C12's theorem)",
+}
+
+
+def hash_sites():
+    """(file, statement text, line) of every iteration over a HashMap / HashSet in /repo/src (tests excluded)"""
+    import glob
+    files = sorted(f for f in glob.glob(os.path.join(REPO, "src", "**", "*.rs"), recursive=True) if "/tests/" not in f)
+    names = set()
+    for f in files:
+        t = open(f).read()
+        names |= set(re.findall(r"(\w+): (?:&mut |&)?(?:Vec<)?Hash(?:Map|Set)<", t))
+        names |= set(re.findall(r"let (?:mut )?(\w+)(?:: [^=;]+)? = Hash(?:Map|Set)::", t))
+        names |= set(re.findall(r"let (?:mut )?(\w+): (?:&mut |&)?Hash(?:Map|Set)<", t))
+    alt = "|".join(sorted(names) + [r"res\.1", r"res\.\d"])
+    pat = re.compile(r"(?:\b(?:%s)\b|\bres\.1)[\w\.\(\)\?]*\s*\.\s*(?:iter|iter_mut|values|values_mut|keys|into_iter|drain|into_keys|into_values|retain|extract_if)\(|for [^;{]* in &?(?:mut )?[\w\.]*\b(?:%s)\b" % (alt, alt))
+    out = []
+    for f in files:
+        for i, l in enumerate(open(f).read().splitlines()):
+            if pat.search(l) and not l.strip().startswith("//"):
+                out.append((os.path.relpath(f, REPO), re.sub(r"\s+", " ", l.strip()), i + 1))
+    return out, sorted(names)
+
+
 def extract():
     probs = []
+    sites, hnames = hash_sites()
+    for (f, text, line) in sites:
+        if (f, text) not in AUDITED_HASH_SITES:
+            probs.append("unaudited iteration over a hash map at %s:%d: `%s` (hash order may reach the output)" % (f, line, text[:120]))
+    for (f, text) in AUDITED_HASH_SITES:
+        if not any(s[0] == f and s[1] == text for s in sites):
+            probs.append("audited hash-map iteration no longer found in %s: `%s`" % (f, text[:100]))
     src = open(os.path.join(REPO, "src/compile.rs")).read()
     cv = comparator(src, "sorted_variables", probs)
     cf = comparator(src, "sorted_functions", probs)
@@ -51,5 +91,7 @@ def extract():
          "def orderSites : Nat := %d" % len(orders),
          "/-- literal-collection loops iterating a HashMap directly / over sorted keys -/",
          "def literalLoopsUnsorted : Nat := %d" % unsorted,
-         "def literalLoopsSorted : Nat := %d" % sorted_]
+         "def literalLoopsSorted : Nat := %d" % sorted_,
+         "/-- iterations over hash maps / sets found in the source (all audited as order-insensitive or sorted) -/",
+         "def hashIterationSites : Nat := %d" % len(sites)]
     return "\n".join(L) + "\n", probs
